@@ -8,6 +8,7 @@ import (
 	"context"
 	"fmt"
 	"log/slog"
+	"math"
 	"net/http/httptest"
 	"os"
 	"runtime"
@@ -20,6 +21,8 @@ import (
 	"go.uber.org/zap"
 	"go.uber.org/zap/exp/zapslog"
 	"go.uber.org/zap/zapcore"
+	"go.uber.org/zap/zapgrpc"
+	"go.uber.org/zap/zapio"
 	"go.uber.org/zap/zaptest/observer"
 	"pgregory.net/rapid"
 )
@@ -34,6 +37,8 @@ var c09Ops = []string{
 	"slog.Info", "slog.With+WithGroup", "slog.Handler.WithAttrs+Handle", "slog.PendingGroups.WithGroup", "slog.PendingGroups.WithAttrs",
 	"BWS.Write", "BWS.Sync", "BWS.Stop", "Locked.Write", "Locked.Sync",
 	"LazyChild.Info", "LazyChild.With", "yield",
+	"ReflectCtx.Info(reflect)", "ReflectCtx.Info(reflect)", "ReflectCtx.With(reflect)", "Logger.Info(unencodable)", "Logger.Error(errors)", "Logger.Info(nested)",
+	"DeepStack.Error", "DeepStack.Error", "Logger.Info(big)", "StdLog.Print", "grpc.Info", "grpc.V", "zapio.Write", "Logger.Check(disabled)", "Logger.Info(stringers)",
 }
 
 type c09Program struct {
@@ -91,7 +96,8 @@ func c09Run(t interface{ Fatalf(string, ...any) }, p *c09Program) (sharedWriters
 	locked := zapcore.Lock(&unsafeBuf{})
 	bws := &zapcore.BufferedWriteSyncer{WS: &c09LockedBuf{}, Size: 64, FlushInterval: time.Millisecond}
 	defer bws.Stop()
-	cfg := zapcore.EncoderConfig{MessageKey: "m", LevelKey: "l", NameKey: "n", CallerKey: "c", StacktraceKey: "s", EncodeLevel: zapcore.LowercaseLevelEncoder, EncodeCaller: zapcore.ShortCallerEncoder}
+	cfg := zapcore.EncoderConfig{TimeKey: "t", MessageKey: "m", LevelKey: "l", NameKey: "n", CallerKey: "c", StacktraceKey: "s", EncodeLevel: zapcore.LowercaseLevelEncoder, EncodeCaller: zapcore.ShortCallerEncoder,
+		EncodeTime: zapcore.RFC3339NanoTimeEncoder, EncodeDuration: zapcore.StringDurationEncoder}
 	oc, logs := observer.New(al)
 	var hookN atomic.Int64
 	core := zapcore.NewTee(
@@ -110,6 +116,10 @@ func c09Run(t interface{ Fatalf(string, ...any) }, p *c09Program) (sharedWriters
 	shared := base.WithLazy(zap.Int("lazy", 1), zap.Object("o", cntObjSafe{}))
 	lazyChild := shared.WithLazy(zap.String("second", "lazy")).Named("lc")
 	sg := shared.Sugar()
+	// a logger whose context already holds reflected values; every goroutine encodes through this one core
+	reflCtx := base.With(zap.Reflect("rctx", map[string]int{"r": 1}), zap.Any("rany", struct{ A, B int }{1, 2}))
+	stdl := zap.NewStdLog(shared)
+	grpcl := zapgrpc.NewLogger(shared)
 	sl := slog.New(zapslog.NewHandler(shared.Core(), zapslog.WithCaller(true)))
 	slh := zapslog.NewHandler(shared.Core())
 	// a handler with several groups still pending (no attribute consumed them yet)
@@ -120,6 +130,9 @@ func c09Run(t interface{ Fatalf(string, ...any) }, p *c09Program) (sharedWriters
 		lazyChild.Info("warm")
 		sg.Infow("warm", "k", 1)
 		sl.Info("warm")
+		reflCtx.Info("warm", zap.Reflect("v", 1))
+		stdl.Print("warm")
+		grpcl.Info("warm")
 		_, _ = bws.Write([]byte("warm\n"))
 		_ = shared.Sync()
 	}
@@ -249,6 +262,40 @@ func c09Run(t interface{ Fatalf(string, ...any) }, p *c09Program) (sharedWriters
 					lazyChild.With(zap.Int("x", g)).Sugar().Infow("lc", "y", g)
 				case "yield":
 					runtime.Gosched()
+				case "ReflectCtx.Info(reflect)":
+					reflCtx.Info("r", zap.Reflect("v", map[string]any{"g": g, "s": []int{g, g}}), zap.Any("a", struct{ G int }{g}))
+				case "ReflectCtx.With(reflect)":
+					reflCtx.With(zap.Reflect("w", []int{g})).Warn("r", zap.Reflect("v", g))
+				case "Logger.Info(unencodable)":
+					shared.Info("u", zap.Reflect("bad", make(chan int)), zap.Reflect("nan", map[string]float64{"x": math.NaN()}), zap.Reflect("ok", []int{g}))
+					reflCtx.Info("u", zap.Reflect("bad", func() {}), zap.Reflect("ok", g))
+				case "Logger.Error(errors)":
+					shared.Error("e", zap.Errors("errs", []error{fmt.Errorf("e%d", g), nil, verboseErr{"v"}, groupErr{"g", []error{fmt.Errorf("m")}}}), zap.NamedError("ne", panicErr{"boom"}))
+				case "Logger.Info(nested)":
+					shared.Info("n", zap.Object("o", c04Obj{g, "pad"}), zap.Objects("os", []c04Obj{{g, "a"}, {g, "b"}}), zap.Dict("d", zap.Int("g", g), zap.Namespace("ns"), zap.Duration("dur", time.Duration(g))),
+						zap.Times("ts", []time.Time{time.Unix(int64(g), 0)}), zap.Namespace("open"), zap.Binary("bin", []byte{byte(g)}))
+				case "Logger.Info(stringers)":
+					shared.Info("s", zap.Stringer("ok", okStringer{"s"}), zap.Stringer("panics", panicStringer{"boom"}), zap.Stringers("ss", []fmt.Stringer{okStringer{"a"}, nil, (*ptrStringer)(nil)}))
+				case "DeepStack.Error":
+					// stack capture deeper than the pooled 64-frame storage
+					deepCall(70+10*g, func() { shared.Error("deep", zap.Int("g", g)) })
+				case "Logger.Info(big)":
+					shared.Info(strings.Repeat("x", 3000), zap.String("big", strings.Repeat("y", 2000)))
+				case "StdLog.Print":
+					stdl.Print("std ", g)
+				case "grpc.Info":
+					grpcl.Info("grpc", g)
+					grpcl.Warningf("grpc %d", g)
+				case "grpc.V":
+					_ = grpcl.V(g % 4)
+				case "zapio.Write":
+					w := &zapio.Writer{Log: shared, Level: zapcore.InfoLevel}
+					_, _ = w.Write([]byte("line1\npartial"))
+					_ = w.Close()
+				case "Logger.Check(disabled)":
+					if ce := shared.Check(zapcore.Level(-5), "never"); ce != nil {
+						ce.Write()
+					}
 				}
 			}
 		}(g)
@@ -277,6 +324,8 @@ func c09Run(t interface{ Fatalf(string, ...any) }, p *c09Program) (sharedWriters
 			switch {
 			case strings.HasPrefix(op, "Logger.") || strings.HasPrefix(op, "Sugar.") || strings.HasPrefix(op, "slog."):
 				seen["shared-lazy-logger"] = true
+			case strings.HasPrefix(op, "ReflectCtx") || strings.HasPrefix(op, "DeepStack"):
+				seen["reflect-context-logger"] = true
 			case strings.HasPrefix(op, "LazyChild"):
 				seen["lazy-child"] = true
 			case op == "AtomicLevel.SetLevel" || op == "AtomicLevel.ServeHTTP(PUT)":
